@@ -58,7 +58,7 @@ def cases(rng, tier):
         # ordered index lists longer than the array has runs: ascending / descending / constant, negative, non-negative and MIXED signs
         j = rng.randint(0, n)
         add(a, {"kind": "list", "is": list(range(-j, n - j)) + ([n - j - 1] * 2 if n - j - 1 >= -n and j < n else [])})
-        add(a, {"kind": "list", "is": sorted(rng.randint(-n, n - 1) for _ in range(n + 3))})
+        add(a, {"kind": "list", "is": sorted(rng.randint(-n, n - 1) for _ in range(n + 3)), "idt": rng.choice(["int8", "int16", "int32", "intp"])})
         add(a, {"kind": "list", "is": sorted((rng.randint(-n, n - 1) for _ in range(n + 2)), reverse=True)})
         masks = [[bool((m >> i) & 1) for i in range(n)] for m in (range(2 ** n) if n <= 4 else rng.sample(range(2 ** n), 12))]
         for bs in masks:
@@ -88,6 +88,9 @@ def cases(rng, tier):
         for (x, y, k) in [(None, None, 2), (None, None, -3), (250, None, 257), (None, 65540, 255), (65530, 65545, 1), (None, None, -65536), (-70000, 70000, 7)]:
             add(a, {"kind": "slice", "a0": x, "b0": y, "k": k, "long": True}, dt=rng.choice(["int64", "uint8", "bool"]))
         add(a, {"kind": "int", "i": rng.choice(pts), "long": True}, dt="int32")
+        add(a, {"kind": "list", "is": [1, -1, 100, -100, 5], "long": True, "idt": "int8"}, dt="int64")
+        add(a, {"kind": "list", "is": [1, 200, 255, 0, 7], "long": True, "idt": "uint8"}, dt="int16")
+        add(a, {"kind": "list", "is": [300, -300, 32767][:3 if L > 32767 else 2], "long": True, "idt": "int16"}, dt="int64")
         ss = [q for q in (0, 254, 65530, L - 3) if 0 <= q < L - 1]
         add(a, {"kind": "windows", "ss": ss, "es": [min(L, q + 10) for q in ss], "long": True}, dt="int64")
     for _ in range(1500 if tier == "quick" else 20000):
@@ -171,6 +174,8 @@ def run_impl(p):
             if len(ix["is"]) % 2 == 0:
                 return r[list(ix["is"])]
             ia = np.array(ix["is"], dtype=[np.int64, np.int32, np.int16][len(ix["is"]) % 3] if max([abs(i) for i in ix["is"]] + [0]) < 30000 else np.int64)
+            if "idt" in ix:
+                ia = np.array(ix["is"], dtype=ix["idt"])      # a narrow index dtype, also on arrays longer than that dtype can count
             keep = ia.copy()
             if sum(ix["is"]) % 2:
                 ia.setflags(write=False)        # an index array the caller does not allow to be written to
